@@ -79,19 +79,29 @@ def sig_run(initial, ops):
         tab.raised += 1
         raise KeyboardInterrupt
 
-    def ign(*a):
-        tab.dropped += 1
-    # the tokens stored in the slot are callables, like signal.default_int_handler / SIG_IGN behave when invoked by the interpreter
+    # 'd' is Python's default_int_handler (a callable that raises KeyboardInterrupt); 'i' is the REAL signal.SIG_IGN — an enum member,
+    # not a callable: the interpreter never calls it, the signal is simply dropped
+    import signal as _signal
+    ign = _signal.SIG_IGN
     tab.DFL, tab.IGN = dfl, ign
     ms.SIG_IGN = ign
     tab.h = dfl if initial == 'd' else ign
-    tab._call = lambda h: h(2, None)
+
+    def _arrive(h):
+        if h is ign:
+            tab.dropped += 1
+        else:
+            h(2, None)
+    tab._call = _arrive
     stack, ids, keep, done = [], {}, [], []
+    foreign = []
 
     def leave(exc):
         m = stack.pop()
         done.append('e')
         m.__exit__(type(exc) if exc else None, exc, None)
+        if isinstance(m, ms.DelayedKeyboardInterrupt) and m.signal_received and getattr(m, 'old_handler', None) is ign:
+            tab.dropped += 1        # a deferred signal whose turn comes while SIGINT is ignored has no effect: it counts as dropped
 
     try:
         for op in ops:
@@ -114,7 +124,7 @@ def sig_run(initial, ops):
                     leave(None)
                 elif op == 's':
                     done.append('s')
-                    tab.h(2, None)
+                    tab._call(tab.h)
                 elif op == 'r':
                     # the code inside the with-blocks raises an ordinary exception: every enclosing manager is left with it
                     exc = ValueError('body failed')
@@ -133,6 +143,9 @@ def sig_run(initial, ops):
                     except KeyboardInterrupt as e2:
                         exc = e2
                 break
+            except Exception as e:  # noqa: anything else coming out of a context manager is not an outcome the interrupt may have
+                foreign.append(type(e).__name__)
+                break
 
         def show(h):
             if h is dfl:
@@ -141,7 +154,8 @@ def sig_run(initial, ops):
                 return 'i'
             return 'D%d' % ids.get(id(getattr(h, '__self__', None)), 99)
         pending = sum(1 for m in stack if isinstance(m, ms.DelayedKeyboardInterrupt) and m.signal_received)
-        return done, 'handler=%s raised=%d dropped=%d depth=%d pending=%d' % (show(tab.h), tab.raised, tab.dropped, len(stack), pending)
+        return done, 'handler=%s raised=%d dropped=%d depth=%d pending=%d' % (show(tab.h), tab.raised, tab.dropped, len(stack), pending) + \
+            (' ESCAPED:' + foreign[0] if foreign else '')
     finally:
         ms.signal_, ms.getsignal, ms.current_thread, ms.main_thread, ms.SIG_IGN = saved
 
